@@ -2,7 +2,7 @@
 from . import core
 
 SHORTS = ["a", "rhel", "my-prod", "a-1", "x-y-z", "fast"]
-VERSIONS = ["1", "7.1", "10.0.3", "rawhide", "fast", "eus", "20150522", "Rawhide", "ELN.1"]
+VERSIONS = ["1", "7.1", "10.0.3", "rawhide", "fast", "eus", "20150522", "Rawhide", "ELN.1", "rawhide ", " pre"]   # free-form: blanks at either end are part of the text
 REPS = [{"l": "a", "U": "A", "d": "1", "-": "-", ".": ".", "@": "@", "o": "_"},
         # "other" is everything else: a line feed (which '.' and '$' of a pattern treat specially) ...
         {"l": "z", "U": "Q", "d": "0", "-": "-", ".": ".", "@": "@", "o": "\n"},
